@@ -721,7 +721,12 @@ def step (st : St) (op : List String) (obs : Json) : St × String :=
       else if signerProjOfModel s == signerProjOfObs sj then a
       else a.fail s!"signer {n}: model {repr (signerProjOfModel s)} implementation {repr (signerProjOfObs sj)}") a
     -- oracle
-    let orc := if a.st.tainted then [] else oracleExactlyOnce a.st ta ++ taNumbersOracle a.st ta
+    -- C14/C15: the manifest and the CRL the TA has in the repository carry the same number (both are built from the
+    -- one revision of `TrustAnchorObjects`), whatever number override the signer was given
+    let mftCrl := match jget obs "mft", jget obs "crl" with
+      | .null, _ | _, .null => []
+      | m, c => if jstr m == jstr c then [] else ["ta_mft_crl_numbers_agree"]
+    let orc := if a.st.tainted then [] else oracleExactlyOnce a.st ta ++ taNumbersOracle a.st ta ++ mftCrl
     let a := if orc.isEmpty then a else { a with fails := a.fails ++ ["ORACLE " ++ " ".intercalate orc] }
     { a with st := { a.st with lastNum := jnat? (jget ta "num") } }
   -- ---------------- CMS part
